@@ -9,7 +9,7 @@ THEOREMS = ["C05_Inv_wake_preserved", "C05_Inv_wake_every_history", "C05_snapsho
             "C05_never_late_never_lost", "C05_complete_run_wakes_at_deadline", "C05_futures_keep_invariant",
             "C05_composite_event_is_driver_event", "C05_woken_through_last_poller",
             "C05_composite_sleep_exact", "C05_composite_sleep_prefix", "C05_fragment_scripts_decode_ok",
-            "C05_removal_by_id_needs_distinct_ids", "C05_composite_reset_drop_exact", "C05_composite_timeout_sleep_exact", "C05_composite_interval_exact", "C05_composite_keepalive_select_exact", "C05_composite_select_exact",
+            "C05_removal_by_id_needs_distinct_ids", "C05_composite_reset_drop_exact", "C05_composite_timeout_sleep_exact", "C05_composite_interval_exact", "C05_composite_keepalive_select_exact", "C05_composite_select_exact", "C05_composite_timeout_recv_exact",
             "C05_due_deadline_completes_immediately",
             "C05_timeout_ok_iff_inner_first", "C05_interval_ticks"]
 QUICK_N = 2500; THOROUGH_N = 150000
@@ -28,7 +28,12 @@ TRUSTED = ["tasks are scripts over the timer API (no channels between tasks: tas
            "tokio is modelled as a FIFO executor without poll budget (C06): a woken or spawned task is polled within the same event; "
            "a task that wakes itself is polled again in the same event",
            "the composition of driver + futures + executor + event set (coq/Timer/Model.v) is validated by these differential runs, not proved"]
-ASSUMPTIONS = ["fewer than 61 task polls per event (tokio's budget is C06's subject)",
+ASSUMPTIONS = [
+    "executor order (only C05_composite_timeout_recv_exact depends on it, and only at a tie, which its hypothesis recv_ok "
+    "excludes): tasks made runnable within one event are polled in wake order -- due timer entries in slot registration "
+    "order, then newly spawned tasks, then receivers woken by sends; tokio's current_thread runtime + LocalSet does this "
+    "for fewer than 61 wakes per tick (budget rules: coq/Exec/Model.v, property C06)",
+"fewer than 61 task polls per event (tokio's budget is C06's subject)",
                "a duration >= 2^61 in a script stands for Duration::MAX (deadline SimTime::MAX, printed as 2^62 - 1); finite deadlines "
                "close to SimTime::MAX are not generated (their wake-up event would make the calendar queue scan ~10^20 buckets); finite "
                "deadlines above 2 * 10^13 ns occur only on timers that are cancelled before they are scheduled",
@@ -57,7 +62,7 @@ CLAIM = dict(
          "through the task that polled it last. The pinned next() (front slot only) is refuted in Coq by the history register a@5, drop a, "
          "register b@10, deactivate, the pinned never-refreshed waker by a hand-over script in which the receiving task never resumes. In the composite model (coq/Timer/Model.v: scripted tasks, FIFO executor, drivers, event set, waker table) every "
          "module event is proved to be one such driver event with a contract-respecting operation list, and for the fragment "
-         "{sleep, sleep_until, log, Sleep::reset / drop of a registered sleep, timeout(d, sleep x), interval new / tick / drop with all three missed-tick behaviours, the biased keep-alive select! of step 13 (C05_composite_keepalive_select_exact), select! over two sleeps (C05_composite_select_exact)} (finite durations) "
+         "{sleep, sleep_until, log, Sleep::reset / drop of a registered sleep, timeout(d, sleep x), interval new / tick / drop with all three missed-tick behaviours, the biased keep-alive select! of step 13 (C05_composite_keepalive_select_exact), select! over two sleeps (C05_composite_select_exact), timeout(d, receive) with token messages from sender tasks (C05_composite_timeout_recv_exact; hypotheses: a task sends or receives, one receiver per module, no message arriving at the very instant a receive elapses -- there the executor's poll order decides)} (finite durations) "
          "the composite is proved END TO END (C05_composite_sleep_exact, C05_composite_reset_drop_exact, C05_composite_timeout_sleep_exact: Ok iff x <= d, returned exactly at "
          "now + min(x, d); C05_composite_interval_exact: tick returns at max(now, nominal) with the nominal instant, next nominal instant by tick_next): for every list of such tasks "
          "(any number, both modules, spawned at start-up or by messages at any instants) the run ends, every task finishes and its "
